@@ -877,6 +877,189 @@ Proof.
     + rewrite pop_enter. apply (IH st acc Hf Hne Hm Hn).
 Qed.
 
+(* ---------- one First column ---------- *)
+(* the state after the loop: untouched unless the capture ran in it *)
+Definition first_state (isf mem : string) (found o : option value) (st : state) : state :=
+  match found, o with
+  | None, Some x => updm mem x (upd isf (VBool false) st)
+  | _, _ => st
+  end.
+
+Lemma lookup_upd_other (y x : string) (v : value) (st : state) (t : string) (old : value) :
+  fget x st = Some (t, old) -> String.eqb y x = false -> lookup y (upd x v st) = lookup y st.
+Proof.
+  intros H Hne. destruct (assign_upd x v st t old H) as (_ & _ & _ & O & M & _).
+  unfold lookup. fold (fget y (upd x v st)). fold (fget y st). rewrite (O y Hne), M. reflexivity.
+Qed.
+
+Lemma exec_capture (brs : list branch) (ev : event) (iv : string) (ar : bool) (isf mem t : string) (body : pa)
+      (s : state) (armed : bool) (old v : value) :
+  fget isf s = Some ("bool", VBool armed) -> fget mem s = None -> mget mem s = Some (pa_type body, old) ->
+  lookup iv s = Some (t, v) -> String.eqb iv isf = false ->
+  (armed = true -> nstuck (dpa ev v body)) ->
+  exec_stmt brs ev (fi_capture isf [] (one_stmt (SSet mem None (tpa iv ar body)))) s =
+  if armed then match dpa ev v body with
+                | ROk x => ROk (updm mem (conv (pa_type body) x) (upd isf (VBool false) s))
+                | RFault f => RFault f
+                | RStuck k => RStuck k
+                end
+  else ROk s.
+Proof.
+  intros Hf Hm Hmg Hl Hne Hn. unfold fi_capture. rewrite exec_if, eval_var, (lookup_fget _ _ _ Hf). cbn [rbind truth].
+  destruct armed; [|reflexivity]. specialize (Hn eq_refl).
+  rewrite exec_block_eq. cbn [run_decls rbind]. rewrite exec_stmts_cons, exec_set. cbn [eval rbind].
+  assert (Hf' : fget isf (enter [] s) = Some ("bool", VBool true)) by (rewrite fget_enter; [exact Hf|reflexivity]).
+  destruct (assign_upd isf (VBool false) (enter [] s) _ _ Hf') as (Ha & Hlk & _ & _ & _ & _).
+  rewrite Hlk. change (conv "bool" (VBool false)) with (VBool false). rewrite Ha. cbn [rbind].
+  rewrite (upd_enter isf (VBool false) [] s "bool" (VBool true) eq_refl Hf).
+  set (s1 := upd isf (VBool false) s).
+  rewrite exec_one, exec_set.
+  assert (Hl1 : lookup iv (enter [] s1) = Some (t, v)).
+  { unfold lookup. cbn [frames enter frames_get frame_get members]. fold (fget iv s1).
+    change (match fget iv s1 with Some tv => Some tv | None => frame_get iv (members s1) end) with (lookup iv s1).
+    unfold s1. rewrite (lookup_upd_other iv isf (VBool false) s "bool" (VBool true) Hf Hne). exact Hl. }
+  rewrite (eval_tpa ev (enter [] s1) iv ar t v body Hl1 Hn).
+  destruct (dpa ev v body) as [x|f|k]; cbn [rbind]; try reflexivity.
+  assert (Hm1 : fget mem (enter [] s1) = None).
+  { rewrite fget_enter; [|reflexivity]. unfold s1.
+    destruct (assign_upd isf (VBool false) s _ _ Hf) as (_ & _ & G & O & _ & _).
+    destruct (String.eqb mem isf) eqn:E; [apply String.eqb_eq in E; subst mem; rewrite Hm in Hf; discriminate|].
+    rewrite (O mem E). exact Hm. }
+  assert (Hmg1 : mget mem (enter [] s1) = Some (pa_type body, old)).
+  { rewrite mget_enter. unfold s1. rewrite mget_upd. exact Hmg. }
+  destruct (assign_updm mem (conv (pa_type body) x) (enter [] s1) _ _ Hm1 Hmg1) as (Ha2 & Hlk2 & _).
+  rewrite Hlk2, Ha2. cbn [rbind]. rewrite updm_enter, pop_enter. reflexivity.
+Qed.
+
+Lemma nest_first (brs : list branch) (ev : event) (iv : string) (ar : bool) (isf mem t : string) (body : pa) (v : value) (ps : list pred) :
+  forall (s : state) (armed : bool) (old : value),
+  lookup iv s = Some (t, v) -> String.eqb iv isf = false ->
+  fget isf s = Some ("bool", VBool armed) -> fget mem s = None -> mget mem s = Some (pa_type body, old) ->
+  nstuck (rbind (passes ev v ps) (fun b => if b && armed then dpa ev v body else ROk VNull)) ->
+  nest_run ev (exec_stmt brs ev (fi_capture isf [] (one_stmt (SSet mem None (tpa iv ar body))))) (map (tpred iv ar) ps) s =
+  match passes ev v ps with
+  | ROk true => if armed then match dpa ev v body with
+                              | ROk x => ROk (updm mem (conv (pa_type body) x) (upd isf (VBool false) s))
+                              | RFault f => RFault f | RStuck k => RStuck k end
+                else ROk s
+  | ROk false => ROk s
+  | RFault f => RFault f
+  | RStuck k => RStuck k
+  end.
+Proof.
+  induction ps as [|p r IH]; intros s armed old Hl Hne Hf Hm Hmg Hn; cbn [map nest_run passes] in *.
+  - cbn [rbind andb] in Hn.
+    apply (exec_capture brs ev iv ar isf mem t body s armed old v Hf Hm Hmg Hl Hne).
+    intro Ea. subst armed. exact Hn.
+  - rewrite dpred_dpredv in *.
+    pose proof (nstuck_bind_l _ _ (nstuck_bind_l _ _ (nstuck_bind_l _ _ Hn))) as Hv.
+    rewrite (eval_tpred ev s iv ar t v p Hl Hv).
+    destruct (dpredv ev v p) as [w|f|k]; cbn [rbind] in *; [|reflexivity|destruct Hv].
+    destruct (truth w) as [b|f|k]; cbn [rbind] in *; [|reflexivity|destruct Hn].
+    destruct b; [|reflexivity].
+    assert (Hl' : lookup iv (enter [] s) = Some (t, v)).
+    { unfold lookup in *. cbn [frames enter frames_get frame_get members]. exact Hl. }
+    rewrite (IH (enter [] s) armed old Hl' Hne); [| rewrite fget_enter; [exact Hf|reflexivity] | rewrite fget_enter; [exact Hm|reflexivity] | exact Hmg | exact Hn].
+    destruct (passes ev v r) as [[|]|f|k]; cbn [rbind] in *; try reflexivity.
+    + destruct armed; [|cbn [rbind]; rewrite pop_enter; reflexivity].
+      destruct (dpa ev v body) as [x|f|k]; cbn [rbind]; try reflexivity.
+      rewrite (upd_enter isf (VBool false) [] s "bool" (VBool true) eq_refl Hf). rewrite updm_enter, pop_enter. reflexivity.
+    + rewrite pop_enter. reflexivity.
+Qed.
+
+
+Lemma first_loop_some (ev : event) (ty : string) (body : pa) (ps : list pred) (l : list value) : forall (x : value) (o : option value),
+  first_loop ev ty body ps l (Some x) = ROk o -> o = Some x.
+Proof.
+  induction l as [|v r IH]; intros x o H; cbn [first_loop] in H; [inversion H; reflexivity|].
+  destruct (passes ev v ps) as [[|]|f|k]; cbn [rbind] in H; try discriminate; eapply IH; exact H.
+Qed.
+
+Lemma loop_first (brs : list branch) (ev : event) (iv : string) (ar : bool) (isf mem : string) (body : pa) (ps : list pred) (l : list value) :
+  forall (st : state) (found : option value) (old : value),
+  String.eqb iv isf = false -> String.eqb isf iv = false -> String.eqb mem iv = false ->
+  fget isf st = Some ("bool", VBool (match found with None => true | Some _ => false end)) ->
+  fget mem st = None -> mget mem st = Some (pa_type body, match found with Some x => x | None => old end) ->
+  nstuck (first_loop ev (pa_type body) body ps l found) ->
+  for_loop brs ev iv (Blk [] (one_stmt (fi_guards (map (tpred iv ar) ps) (fi_capture isf [] (one_stmt (SSet mem None (tpa iv ar body))))))) l st =
+  match first_loop ev (pa_type body) body ps l found with
+  | ROk o => ROk (first_state isf mem found o st)
+  | RFault f => RFault f
+  | RStuck k => RStuck k
+  end.
+Proof.
+  induction l as [|v r IH]; intros st found old Hne1 Hne2 Hne3 Hf Hm Hmg Hn.
+  - cbn [first_loop]. rewrite for_loop_nil. unfold first_state. destruct found; reflexivity.
+  - cbn [first_loop] in *. rewrite for_loop_cons, exec_block_eq. cbn [run_decls rbind].
+    rewrite exec_one, guards_exec.
+    set (s0 := enter [(iv, ("auto", v))] st).
+    assert (Hl : lookup iv s0 = Some ("auto", v)).
+    { unfold lookup, s0, enter. cbn. rewrite String.eqb_refl. reflexivity. }
+    assert (Hf0 : fget isf s0 = Some ("bool", VBool (match found with None => true | Some _ => false end))).
+    { unfold s0. rewrite fget_enter; [exact Hf|]. cbn. rewrite Hne2. reflexivity. }
+    assert (Hm0 : fget mem s0 = None).
+    { unfold s0. rewrite fget_enter; [exact Hm|]. cbn. rewrite Hne3. reflexivity. }
+    assert (Hn' : nstuck (rbind (passes ev v ps) (fun b => if b && (match found with None => true | Some _ => false end) then dpa ev v body else ROk VNull))).
+    { destruct (passes ev v ps) as [[|]|f|k]; cbn [rbind andb] in *; try exact I; [|exact Hn].
+      destruct found; [exact I|]. exact (nstuck_bind_l _ _ Hn). }
+    rewrite (nest_first brs ev iv ar isf mem "auto" body v ps s0 _ _ Hl Hne1 Hf0 Hm0 Hmg Hn').
+    destruct (passes ev v ps) as [b|f|k]; cbn [rbind] in *; [|reflexivity|destruct Hn].
+    destruct b; cbn [rbind].
+    + destruct found as [x0|].
+      * cbn [rbind]. unfold s0. rewrite pop_enter. apply (IH st (Some x0) old Hne1 Hne2 Hne3 Hf Hm Hmg Hn).
+      * destruct (dpa ev v body) as [x|f|k] eqn:Ex; cbn [rbind] in *; [|reflexivity|destruct Hn].
+        unfold s0. rewrite (upd_enter isf (VBool false) _ st "bool" (VBool true)); [|cbn; rewrite Hne2; reflexivity|exact Hf].
+        rewrite updm_enter, pop_enter.
+        set (x' := conv (pa_type body) x) in *.
+        destruct (assign_upd isf (VBool false) st _ _ Hf) as (_ & _ & G1 & O1 & _ & _).
+        assert (Hme : String.eqb mem isf = false).
+        { destruct (String.eqb mem isf) eqn:E; [|reflexivity]. apply String.eqb_eq in E. subst mem. rewrite Hm in Hf. discriminate. }
+        assert (Hm1 : fget mem (upd isf (VBool false) st) = None) by (rewrite (O1 mem Hme); exact Hm).
+        assert (Hmg1 : mget mem (upd isf (VBool false) st) = Some (pa_type body, old)) by (rewrite mget_upd; exact Hmg).
+        destruct (assign_updm mem x' (upd isf (VBool false) st) _ _ Hm1 Hmg1) as (_ & _ & G2 & _ & _ & _).
+        set (st1 := updm mem x' (upd isf (VBool false) st)) in *.
+        assert (Hf1 : fget isf st1 = Some ("bool", VBool false)) by (unfold st1; rewrite fget_updm; exact G1).
+        assert (Hm2 : fget mem st1 = None) by (unfold st1; rewrite fget_updm; exact Hm1).
+        rewrite (IH st1 (Some x') old Hne1 Hne2 Hne3 Hf1 Hm2 G2 Hn).
+        destruct (first_loop ev (pa_type body) body ps r (Some x')) as [o|f|k] eqn:Er; try reflexivity.
+        rewrite (first_loop_some ev _ body ps r x' o Er). reflexivity.
+    + unfold s0. rewrite pop_enter. apply (IH st found old Hne1 Hne2 Hne3 Hf Hm Hmg Hn).
+Qed.
+
+
+(* First is the LINQ one: with total predicates, the value is the body on the first element of the filtered
+   collection, and the query is undefined exactly when the filtered collection is empty *)
+Lemma first_loop_found_total (ev : event) (ty : string) (body : pa) (ps : list pred) (f : value -> bool) (l : list value) (x : value) :
+  passes_total ev ps l f -> first_loop ev ty body ps l (Some x) = ROk (Some x).
+Proof.
+  induction l as [|v r IH]; intro H; cbn [first_loop]; [reflexivity|].
+  rewrite (H v (or_introl eq_refl)). cbn [rbind].
+  assert (Hr : passes_total ev ps r f) by (intros w Hw; apply H; right; exact Hw).
+  destruct (f v); apply (IH Hr).
+Qed.
+Lemma first_is_hd_filter (ev : event) (ty : string) (body : pa) (ps : list pred) (f : value -> bool) (g : value -> value) (l : list value) :
+  passes_total ev ps l f -> (forall v, In v l -> f v = true -> dpa ev v body = ROk (g v)) ->
+  first_loop ev ty body ps l None = ROk (option_map (fun v => conv ty (g v)) (hd_error (filter f l))).
+Proof.
+  induction l as [|v r IH]; intros H Hg; cbn [first_loop filter]; [reflexivity|].
+  rewrite (H v (or_introl eq_refl)). cbn [rbind].
+  assert (Hr : passes_total ev ps r f) by (intros w Hw; apply H; right; exact Hw).
+  destruct (f v) eqn:Ef.
+  - rewrite (Hg v (or_introl eq_refl) Ef). cbn [rbind hd_error option_map]. apply (first_loop_found_total ev ty body ps f r _ Hr).
+  - apply IH; [exact Hr|]. intros w Hw. apply Hg. right; exact Hw.
+Qed.
+
+
+Lemma first_col_linq (ev : event) (cr : collref) (ps : list pred) (body : pa) (line : string) (f : value -> bool) (g : value -> value) (l : list value) :
+  assoc_ss (c_ctype cr, c_bank cr) (ev_colls ev) = Some (VVec l) ->
+  passes_total ev ps l f -> (forall v, In v l -> f v = true -> dpa ev v body = ROk (g v)) ->
+  dcol ev (ColFirst cr ps body line) =
+  match filter f l with [] => RFault FThrow | v :: _ => ROk (conv (pa_type body) (g v)) end.
+Proof.
+  intros Ha Hp Hg. cbn [dcol]. rewrite Ha. rewrite (first_is_hd_filter ev _ body ps f g l Hp Hg).
+  destruct (filter f l); reflexivity.
+Qed.
+
 (* ---------- columns and rows, component-wise ---------- *)
 Lemma ex_size_size (e : ex) : ex_size e = size e.
 Proof. induction e; cbn; auto. Qed.
@@ -884,16 +1067,28 @@ Proof. induction e; cbn; auto. Qed.
 Definition vec_stmts (idiom : string) (cr : collref) (ps : list pred) (body : pa) (mem : string) (n : nat) : stmts :=
   SCons (SFetch idiom (vcv_name cr n) (c_ctype cr) (c_bank cr) (fetch_lines idiom (c_ctype cr) (c_bank cr)))
         (one_stmt (tvec_loop cr ps body mem n)).
+Definition first_stmts (idiom : string) (cr : collref) (ps : list pred) (body : pa) (line mem : string) (n : nat) : stmts :=
+  SCons (SFetch idiom (vcv_name cr n) (c_ctype cr) (c_bank cr) (fetch_lines idiom (c_ctype cr) (c_bank cr)))
+        (SCons (tfirst_loop cr ps body mem n) (one_stmt (fi_throw (isf_name n) line))).
 Definition cds (c : column) (n : nat) : list decl :=
-  match c with ColScalar e => tds e n | ColVec cr _ _ => [{| d_type := c_ctype cr; d_name := vcv_name cr n; d_init := None |}] end.
+  match c with
+  | ColScalar e => tds e n
+  | ColVec cr _ _ => [{| d_type := c_ctype cr; d_name := vcv_name cr n; d_init := None |}]
+  | ColFirst cr _ _ _ => [{| d_type := c_ctype cr; d_name := vcv_name cr n; d_init := None |}; fi_decl (isf_name n)]
+  end.
 Definition css (idiom : string) (c : column) (mem : string) (n : nat) : stmts :=
-  match c with ColScalar e => tss idiom e n | ColVec cr ps body => vec_stmts idiom cr ps body mem n end.
+  match c with
+  | ColScalar e => tss idiom e n
+  | ColVec cr ps body => vec_stmts idiom cr ps body mem n
+  | ColFirst cr ps body line => first_stmts idiom cr ps body line mem n
+  end.
 Lemma tcol_split (idiom : string) (c : column) (mem : string) (n : nat) :
   tcol idiom c mem n = (cds c n, css idiom c mem n, n + col_size c).
 Proof.
-  destruct c as [e|cr ps body]; cbn [tcol cds css col_size].
+  destruct c as [e|cr ps body|cr ps body line]; cbn [tcol cds css col_size].
   - rewrite (te_split idiom e n). rewrite (ex_size_size e). reflexivity.
   - unfold vec_stmts. replace (n + 2) with (S (S n)) by lia. reflexivity.
+  - unfold first_stmts. replace (n + 3) with (S (S (S n))) by lia. reflexivity.
 Qed.
 Fixpoint rds (r : row) (n : nat) : list decl :=
   match r with [] => [] | (_, c) :: t => cds c n ++ rds t (n + col_size c) end.
@@ -913,35 +1108,40 @@ Fixpoint rsets (r : row) (nf k n : nat) : stmts :=
   | (name, c) :: t =>
       match c with
       | ColScalar e => SCons (SSet (mem_name name (nf + k)) None (tc e n)) (rsets t nf (S k) (n + col_size c))
-      | ColVec _ _ _ => rsets t nf (S k) (n + col_size c)
+      | ColVec _ _ _ | ColFirst _ _ _ _ => rsets t nf (S k) (n + col_size c)
       end
   end.
 Lemma trow_sets_split (idiom : string) (r : row) : forall nf k n, trow_sets idiom r nf k n = rsets r nf k n.
 Proof.
   induction r as [|[name c] t IH]; intros nf k n; cbn [trow_sets rsets]; [reflexivity|].
-  destruct c as [e|cr ps body]; cbn [col_size].
+  destruct c as [e|cr ps body|cr ps body line]; cbn [col_size].
   - rewrite (te_split idiom e n), IH. rewrite (ex_size_size e). reflexivity.
   - replace (n + 2) with (S (S n)) by lia. apply IH.
+  - replace (n + 3) with (S (S (S n))) by lia. apply IH.
 Qed.
 
 Definition cvars (c : column) (n : nat) : list string :=
-  match c with ColScalar e => vars e n | ColVec cr _ _ => [vcv_name cr n] end.
+  match c with ColScalar e => vars e n | ColVec cr _ _ => [vcv_name cr n] | ColFirst cr _ _ _ => [vcv_name cr n; isf_name n] end.
 Fixpoint rvars (r : row) (n : nat) : list string :=
   match r with [] => [] | (_, c) :: t => cvars c n ++ rvars t (n + col_size c) end.
 Fixpoint rmems (r : row) (nf k : nat) : list string :=
   match r with [] => [] | (name, _) :: t => mem_name name (nf + k) :: rmems t nf (S k) end.
 Definition col_bases_ok (c : column) : bool :=
-  match c with ColScalar e => bases_ok e | ColVec cr _ _ => base_ok (c_base cr) end.
+  match c with ColScalar e => bases_ok e | ColVec cr _ _ | ColFirst cr _ _ _ => base_ok (c_base cr) end.
 Fixpoint row_bases_ok (r : row) : bool :=
   match r with [] => true | (_, c) :: t => col_bases_ok c && row_bases_ok t end.
 
 Lemma cvars_shape (c : column) (n : nat) (x : string) : col_bases_ok c = true -> In x (cvars c n) ->
   exists b i, x = nm b i /\ last_digit b = false /\ first_not_underscore b = true /\ n <= i < n + col_size c.
 Proof.
-  destruct c as [e|cr ps body]; cbn [col_bases_ok cvars col_size]; intros Hb Hin.
+  destruct c as [e|cr ps body|cr ps body line]; cbn [col_bases_ok cvars col_size]; intros Hb Hin.
   - rewrite ex_size_size. apply vars_shape; assumption.
   - destruct Hin as [<-|[]]. unfold base_ok in Hb. apply andb_prop in Hb as [H1 H2]. apply negb_true_iff in H1.
     exists (c_base cr), n. repeat split; auto; lia.
+  - unfold base_ok in Hb. apply andb_prop in Hb as [H1 H2]. apply negb_true_iff in H1.
+    destruct Hin as [<-|[<-|[]]].
+    + exists (c_base cr), n. repeat split; auto; lia.
+    + exists "is_first", (S (S n)). repeat split; auto; lia.
 Qed.
 Lemma rvars_shape (r : row) : forall n x, row_bases_ok r = true -> In x (rvars r n) ->
   exists b i, x = nm b i /\ last_digit b = false /\ first_not_underscore b = true /\ n <= i < n + row_size r.
@@ -981,16 +1181,22 @@ Proof.
 Qed.
 
 Definition col_declared (c : column) (n : nat) (st : state) : Prop :=
-  match c with ColScalar e => declared e n st | ColVec cr _ _ => exists t v, fget (vcv_name cr n) st = Some (t, v) end.
+  match c with
+  | ColScalar e => declared e n st
+  | ColVec cr _ _ => exists t v, fget (vcv_name cr n) st = Some (t, v)
+  | ColFirst cr _ _ _ => (exists t v, fget (vcv_name cr n) st = Some (t, v)) /\ fget (isf_name n) st = Some ("bool", VBool true)
+  end.
 Fixpoint row_declared (r : row) (n : nat) (st : state) : Prop :=
   match r with [] => True | (_, c) :: t => col_declared c n st /\ row_declared t (n + col_size c) st end.
 
 Lemma col_declared_ext (c : column) (n : nat) (st st' : state) :
   (forall x, In x (cvars c n) -> fget x st' = fget x st) -> col_declared c n st -> col_declared c n st'.
 Proof.
-  destruct c as [e|cr ps body]; cbn [col_declared cvars]; intros H D.
+  destruct c as [e|cr ps body|cr ps body line]; cbn [col_declared cvars]; intros H D.
   - eapply declared_ext; eauto.
   - destruct D as (t & v & D). exists t, v. rewrite H; [exact D|left; reflexivity].
+  - destruct D as [(t & v & D) Df]. split; [exists t, v; rewrite H; [exact D|left; reflexivity]|].
+    rewrite H; [exact Df|right; left; reflexivity].
 Qed.
 Lemma row_declared_ext (r : row) : forall n st st',
   (forall x, In x (rvars r n) -> fget x st' = fget x st) -> row_declared r n st -> row_declared r n st'.
@@ -1007,17 +1213,19 @@ Definition col_done (ev : event) (c : column) (mem : string) (n : nat) (st : sta
   | ColScalar e => bound e n st /\ (exists v0, eval ev st (tc e n) = ROk v0 /\ v = conv (ex_type e) v0) /\
                    (exists old, mget mem st = Some (ex_type e, old))
   | ColVec cr ps body => (exists l, v = VVec l) /\ mget mem st = Some (col_type c, v)
+  | ColFirst cr ps body _ => mget mem st = Some (col_type c, v)
   end.
 Lemma col_done_ext (ev : event) (c : column) (mem : string) (n : nat) (st st' : state) (v : value) :
   (forall x, In x (cvars c n) -> fget x st' = fget x st) -> mget mem st' = mget mem st ->
   col_done ev c mem n st v -> col_done ev c mem n st' v.
 Proof.
-  destruct c as [e|cr ps body]; cbn [col_done cvars]; intros Hf Hm D.
+  destruct c as [e|cr ps body|cr ps body line]; cbn [col_done cvars]; intros Hf Hm D.
   - destruct D as (B & (v0 & E & Ev) & (old & M)). split; [|split].
     + intros x Hx. rewrite (Hf x Hx). apply B, Hx.
     + exists v0. split; [|exact Ev]. rewrite (tc_ext ev e n st st' B Hf). exact E.
     + exists old. rewrite Hm. exact M.
   - destruct D as [Sh D]. split; [exact Sh|]. rewrite Hm. exact D.
+  - rewrite Hm. exact D.
 Qed.
 
 (* one column's code *)
@@ -1036,7 +1244,7 @@ Lemma col_exec (brs : list branch) (ev : event) (idiom : string) (c : column) (m
   end.
 Proof.
   intros Hb D Hf Hshape Hiv (old & Hm & Hold).
-  destruct c as [e|cr ps body]; cbn [dcol css col_bases_ok col_declared cvars col_done col_type] in *.
+  destruct c as [e|cr ps body|cr ps body line]; cbn [dcol css col_bases_ok col_declared cvars col_done col_type] in *.
   - pose proof (de_phases ev e) as P. pose proof (te_exec brs ev idiom e n st Hb D) as T.
     destruct (de ev e) as [v0|f|k]; cbn [rbind]; [| |exact I].
     + destruct P as [Ps _]. rewrite Ps in T. destruct T as (st' & E & M & R & U & B & V).
@@ -1069,6 +1277,51 @@ Proof.
       * intros m Hmne. rewrite (O m Hmne). apply mget_upd.
       * split; [eexists; reflexivity|exact G].
     + rewrite (loop_push brs ev _ _ mem body ps l st1 [] Hf1 Hiv Hm1); rewrite Ev; [reflexivity|exact I].
+  - destruct D as [(tcv & v0 & Dcv) Disf]. unfold first_stmts. rewrite exec_stmts_cons. cbn [exec_stmt].
+    destruct (assoc_ss (c_ctype cr, c_bank cr) (ev_colls ev)) as [cval|]; [|reflexivity].
+    destruct (assign_upd (vcv_name cr n) cval st tcv v0 Dcv) as (Has & _ & Hcv1 & Hoth & Mem1 & R1).
+    rewrite Has. cbn [rbind]. rewrite exec_stmts_cons. unfold tfirst_loop, tfirst_capture. rewrite exec_for.
+    change (eval ev (upd (vcv_name cr n) cval st) (CDeref (CVar (vcv_name cr n))))
+      with (rbind (eval ev (upd (vcv_name cr n) cval st) (CVar (vcv_name cr n)))
+                  (fun x => match x with VNull => RFault FNullDeref | _ => ROk x end)).
+    rewrite eval_var, (lookup_fget _ _ _ Hcv1).
+    set (st1 := upd (vcv_name cr n) cval st) in *.
+    unfold base_ok in Hb. apply andb_prop in Hb as [Hl F]. apply negb_true_iff in Hl.
+    assert (Ne1 : String.eqb (isf_name n) (vcv_name cr n) = false) by (apply nm_neq; [reflexivity|exact Hl|lia]).
+    assert (Ne2 : String.eqb (isf_name n) (iv_name n) = false) by (apply nm_neq; [reflexivity|reflexivity|lia]).
+    assert (Ne3 : String.eqb (iv_name n) (isf_name n) = false) by (apply nm_neq; [reflexivity|reflexivity|lia]).
+    assert (Hisf1 : fget (isf_name n) st1 = Some ("bool", VBool true)) by (rewrite (Hoth _ Ne1); exact Disf).
+    assert (Hf1 : fget mem st1 = None).
+    { rewrite Hoth; [exact Hf|]. destruct (String.eqb mem (vcv_name cr n)) eqn:E; [|reflexivity].
+      apply String.eqb_eq in E. exfalso. exact (Hshape _ _ F E). }
+    assert (Hm1 : mget mem st1 = Some (pa_type body, old)) by (unfold st1; rewrite mget_upd; exact Hm).
+    destruct cval; cbn [rbind]; try exact I; try reflexivity.
+    pose proof (loop_first brs ev (iv_name n) (c_arrow cr) (isf_name n) mem body ps l st1 None old Ne3 Ne2 Hiv Hisf1 Hf1 Hm1) as L.
+    destruct (first_loop ev (pa_type body) body ps l None) as [o|f|k] eqn:Ef; cbn [rbind]; [| |exact I].
+    + rewrite (L I). cbn [rbind]. rewrite exec_one. unfold first_state.
+      destruct o as [x|].
+      * destruct (assign_upd (isf_name n) (VBool false) st1 _ _ Hisf1) as (_ & _ & G1 & O1 & M1 & Rw1).
+        assert (Hme : String.eqb mem (isf_name n) = false).
+        { destruct (String.eqb mem (isf_name n)) eqn:E; [|reflexivity]. apply String.eqb_eq in E. exfalso.
+          exact (Hshape "is_first" (S (S n)) eq_refl E). }
+        assert (Hf2 : fget mem (upd (isf_name n) (VBool false) st1) = None) by (rewrite (O1 mem Hme); exact Hf1).
+        assert (Hm2 : mget mem (upd (isf_name n) (VBool false) st1) = Some (pa_type body, old)) by (rewrite mget_upd; exact Hm1).
+        destruct (assign_updm mem x (upd (isf_name n) (VBool false) st1) _ _ Hf2 Hm2) as (_ & _ & G2 & O2 & Fr2 & Rw2).
+        set (st2 := updm mem x (upd (isf_name n) (VBool false) st1)) in *.
+        assert (Hl2 : lookup (isf_name n) st2 = Some ("bool", VBool false)).
+        { apply lookup_fget. unfold st2. rewrite fget_updm. exact G1. }
+        rewrite (throw_if_done brs ev (isf_name n) line st2 "bool" Hl2).
+        eexists. split; [reflexivity|]. split; [rewrite Rw2, Rw1; exact R1|]. split; [|split].
+        -- intros y Hy. unfold st2. rewrite fget_updm.
+           assert (Y1 : String.eqb y (isf_name n) = false).
+           { destruct (String.eqb y (isf_name n)) eqn:E; [|reflexivity]. apply String.eqb_eq in E. exfalso. apply Hy. right; left; auto. }
+           assert (Y2 : String.eqb y (vcv_name cr n) = false).
+           { destruct (String.eqb y (vcv_name cr n)) eqn:E; [|reflexivity]. apply String.eqb_eq in E. exfalso. apply Hy. left; auto. }
+           rewrite (O1 y Y1). apply (Hoth y Y2).
+        -- intros m Hmne. rewrite (O2 m Hmne). rewrite mget_upd. apply mget_upd.
+        -- exact G2.
+      * rewrite (throw_if_armed brs ev (isf_name n) line st1 "bool" (lookup_fget _ _ _ Hisf1)). reflexivity.
+    + rewrite (L I). reflexivity.
 Qed.
 
 (* ---------- all columns ---------- *)
@@ -1183,7 +1436,7 @@ Proof.
   - exists st. repeat split; auto.
   - set (mem := mem_name name (nf + k)) in *. inversion Nd as [|? ? Nin Nd']; subst.
     rename H into Dc. rename H0 into Dt.
-    destruct c as [e|cr ps body]; cbn [col_done col_size] in *.
+    destruct c as [e|cr ps body|cr ps body line]; cbn [col_done col_size] in *.
     + destruct Dc as (B & (v0 & E & Ev) & (old & M)).
       destruct (assign_updm mem (conv (ex_type e) v0) st _ _ (Sep mem (or_introl eq_refl)) M) as (Ha & Hlk & G & O & Fr & Rw).
       rewrite exec_stmts_cons, exec_set, E. cbn [rbind]. rewrite Hlk, Ha. cbn [rbind].
@@ -1207,6 +1460,14 @@ Proof.
       * intros m Hm. apply Mo2. intro H. apply Hm. right; exact H.
       * rewrite (Mo2 mem Nin). exact M.
       * exact Sh.
+      * exact Fi2.
+    + destruct (IH nf (S k) (n + 3) st vs' Dt) as (st2 & E2 & F2 & R2 & Mo2 & Fi2).
+      { intros m Hm. apply Sep. right; exact Hm. }
+      { exact Nd'. }
+      exists st2. split; [exact E2|]. split; [exact F2|]. split; [exact R2|]. split; [|split; [|split]].
+      * intros m Hm. apply Mo2. intro H. apply Hm. right; exact H.
+      * rewrite (Mo2 mem Nin). exact Dc.
+      * exact I.
       * exact Fi2.
 Qed.
 
@@ -1243,7 +1504,7 @@ Proof.
   - exists st. repeat split; auto.
   - set (mem := mem_name name (nf + k)) in *. inversion Nd as [|? ? Nin Nd']; subst.
     destruct H0 as [Sh Dt]. rename H into M.
-    destruct c as [e|cr ps body].
+    destruct c as [e|cr ps body|cr ps body line].
     + destruct (IH nf (S k) st vs' Dt) as (st2 & E2 & F2 & R2 & Mo2 & A2); [intros m Hm; apply Sep; right; exact Hm|exact Nd'|].
       exists st2. split; [exact E2|]. split; [exact F2|]. split; [exact R2|]. split; [|split].
       * intros m Hm. apply Mo2. intro H. apply Hm. right; exact H.
@@ -1262,6 +1523,11 @@ Proof.
         destruct (String.eqb m mem) eqn:Em; [|reflexivity]. apply String.eqb_eq in Em. exfalso. apply Hm. left; auto.
       * rewrite (Mo2 mem Nin). exact G.
       * exact A2.
+    + destruct (IH nf (S k) st vs' Dt) as (st2 & E2 & F2 & R2 & Mo2 & A2); [intros m Hm; apply Sep; right; exact Hm|exact Nd'|].
+      exists st2. split; [exact E2|]. split; [exact F2|]. split; [exact R2|]. split; [|split].
+      * intros m Hm. apply Mo2. intro H. apply Hm. right; exact H.
+      * rewrite (Mo2 mem Nin). exact M.
+      * exact A2.
 Qed.
 
 (* ---------- declarations of a row; the whole program ---------- *)
@@ -1277,14 +1543,32 @@ Proof.
   - apply andb_prop in Hb as [Hc Ht]. rewrite run_decls_app.
     assert (C : exists st1, run_decls ev (cds c n) st = ROk st1 /\ col_declared c n st1 /\ members st1 = members st /\
                             rows st1 = rows st /\ (forall y, ~ In y (cvars c n) -> fget y st1 = fget y st)).
-    { destruct c as [e|cr ps body]; cbn [cds col_declared cvars col_bases_ok] in *.
+    { destruct c as [e|cr ps body|cr ps body line]; cbn [cds col_declared cvars col_bases_ok] in *.
       - apply decls_declared; [exact Hc|]. intros x Hx. apply Hf, in_or_app. left; exact Hx.
       - cbn [run_decls d_init d_name d_type].
         destruct (declare_spec (vcv_name cr n) (c_ctype cr) (default_value (c_ctype cr)) st) as (G & O & M & R).
         { apply Hf. left; reflexivity. }
         eexists. split; [reflexivity|]. split; [eauto|]. split; [exact M|]. split; [exact R|].
         intros y Hy. apply O. destruct (String.eqb y (vcv_name cr n)) eqn:E; [|reflexivity].
-        apply String.eqb_eq in E. exfalso. apply Hy. left; auto. }
+        apply String.eqb_eq in E. exfalso. apply Hy. left; auto.
+      - cbn [run_decls d_init d_name d_type fi_decl eval rbind].
+        unfold base_ok in Hc. apply andb_prop in Hc as [Hl _]. apply negb_true_iff in Hl.
+        assert (N1 : String.eqb (isf_name n) (vcv_name cr n) = false) by (apply nm_neq; [reflexivity|exact Hl|lia]).
+        destruct (declare_spec (vcv_name cr n) (c_ctype cr) (default_value (c_ctype cr)) st) as (G & O & M & R).
+        { apply Hf. left; reflexivity. }
+        set (st1 := declare (vcv_name cr n) (c_ctype cr) (default_value (c_ctype cr)) st) in *.
+        assert (F2 : fget (isf_name n) st1 = None) by (rewrite (O _ N1); apply Hf; right; left; reflexivity).
+        change (init_value "bool" (VBool true)) with (VBool true).
+        destruct (declare_spec (isf_name n) "bool" (VBool true) st1 F2) as (G2 & O2 & M2 & R2).
+        eexists. split; [reflexivity|]. split; [split|].
+        + eexists _, _. rewrite O2; [exact G|]. rewrite String.eqb_sym. exact N1.
+        + exact G2.
+        + split; [congruence|]. split; [congruence|]. intros y Hy.
+          assert (Y1 : String.eqb y (isf_name n) = false).
+          { destruct (String.eqb y (isf_name n)) eqn:E; [|reflexivity]. apply String.eqb_eq in E. exfalso. apply Hy. right; left; auto. }
+          assert (Y2 : String.eqb y (vcv_name cr n) = false).
+          { destruct (String.eqb y (vcv_name cr n)) eqn:E; [|reflexivity]. apply String.eqb_eq in E. exfalso. apply Hy. left; auto. }
+          rewrite (O2 _ Y1), (O _ Y2). reflexivity. }
     destruct C as (st1 & E1 & D1 & M1 & R1 & U1). rewrite E1. cbn [rbind].
     destruct (IH (n + col_size c) st1 Ht) as (st2 & E2 & D2 & M2 & R2 & U2).
     { intros x Hx. rewrite U1; [apply Hf, in_or_app; auto|]. intro Hxc. exact (cvars_rvars_disjoint c t n x Hc Ht Hxc Hx). }
@@ -1368,4 +1652,27 @@ Proof.
   exists (members st5). split.
   - rewrite R5. unfold st4. cbn [rows]. rewrite R3, R2, R1. reflexivity.
   - apply members_after_final, A5.
+Qed.
+
+(* C04 for the fragment: a First column makes the job throw exactly when no element passes the filters, and
+   otherwise the row holds the body's value on the first passing element - never a default or a stale value *)
+Theorem frag_first_faults_iff_empty (bk : backend) (name : string) (cr : collref) (ps : list pred) (body : pa) (line : string)
+        (n0 : nat) (ev : event) (ms : frame) (f : value -> bool) (g : value -> value) (l : list value) :
+  let r := [(name, ColFirst cr ps body line)] in
+  base_ok (c_base cr) = true -> members_init r (n0 + row_size r) 0 ms ->
+  assoc_ss (c_ctype cr, c_bank cr) (ev_colls ev) = Some (VVec l) ->
+  passes_total ev ps l f -> (forall v, In v l -> f v = true -> dpa ev v body = ROk (g v)) ->
+  match filter f l with
+  | [] => run_event (prog_row bk r n0) ms ev = RFault FThrow
+  | v :: _ => exists ms', run_event (prog_row bk r n0) ms ev = ROk ([[conv (pa_type body) (g v)]], ms')
+  end.
+Proof.
+  intros r Hb Mi Ha Hp Hg.
+  assert (Hrb : row_bases_ok r = true) by (cbn; rewrite Hb; reflexivity).
+  assert (Nd : NoDup (rmems r (n0 + row_size r) 0)) by (cbn; constructor; [intros []|constructor]).
+  pose proof (frag_row_correct bk r n0 ev ms Hrb Nd Mi) as C. cbn zeta in C.
+  assert (Ed : drow ev r = match filter f l with [] => RFault FThrow | v :: _ => ROk [conv (pa_type body) (g v)] end).
+  { unfold r. cbn [drow]. rewrite (first_col_linq ev cr ps body line f g l Ha Hp Hg). destruct (filter f l); reflexivity. }
+  rewrite Ed in C. destruct (filter f l) as [|v t]; [exact C|].
+  destruct C as (ms' & E & _). exists ms'. exact E.
 Qed.
